@@ -68,16 +68,16 @@ Definition dpiece_okb (p : dpiece) : bool :=
 
 
 (* ---- executable check for the general tag opener -------------------------------------------------------------- *)
-Fixpoint name_run_b (eq : bool) (n : list Z) (nxt : Z) : bool :=
+Fixpoint name_run_b (pi eq : bool) (n : list Z) (nxt : Z) : bool :=
   match n with
   | [] => true
-  | c :: t => negb (name_stop eq c (match t with [] => nxt | c1 :: _ => c1 end)) && name_run_b eq t nxt
+  | c :: t => negb (name_stop pi eq c (match t with [] => nxt | c1 :: _ => c1 end)) && name_run_b pi eq t nxt
   end.
 
-Definition name_end_b (eq : bool) (l : list Z) : bool :=
+Definition name_end_b (pi eq : bool) (l : list Z) : bool :=
   match l with
   | [] => false
-  | c :: t => name_stop eq c (getz t 0) && (negb ((c =? 47) || (c =? 63)) || match t with [] => false | _ => true end)
+  | c :: t => name_stop pi eq c (getz t 0) && (negb ((c =? 47) || (c =? 63)) || match t with [] => false | _ => true end)
   end.
 
 Fixpoint next_not_eq_b (l : list Z) : bool :=
@@ -88,25 +88,25 @@ Fixpoint next_not_eq_b (l : list Z) : bool :=
 
 Definition nil_b (l : list Z) : bool := match l with [] => true | _ => false end.
 
-Definition gattr_okb (a : gattr) (rest : list Z) : bool :=
+Definition gattr_okb (pi : bool) (a : gattr) (rest : list Z) : bool :=
   all_ws_b (g_lead a) &&
   match g_val a with
-  | VNone => negb (nil_b (g_name a)) && name_run_b true (g_name a) (getz rest 0) && name_end_b true rest && next_not_eq_b rest
+  | VNone => negb (nil_b (g_name a)) && name_run_b pi true (g_name a) (getz rest 0) && name_end_b pi true rest && next_not_eq_b rest
   | VUnq w1 w2 x =>
       all_ws_b w1 && all_ws_b w2 && (negb (nil_b (g_name a)) || nil_b w1) &&
-      name_run_b true (g_name a) (getz (w1 ++ [61]) 0) &&
-      name_run_b false x (getz rest 0) && name_end_b false rest &&
+      name_run_b pi true (g_name a) (getz (w1 ++ [61]) 0) &&
+      name_run_b pi false x (getz rest 0) && name_end_b pi false rest &&
       negb (is_ws (getz (x ++ rest) 0)) && negb (getz (x ++ rest) 0 =? 34) && negb (getz (x ++ rest) 0 =? 39)
   | VQuo w1 w2 q x =>
       all_ws_b w1 && all_ws_b w2 && (negb (nil_b (g_name a)) || nil_b w1) &&
-      name_run_b true (g_name a) (getz (w1 ++ [61]) 0) &&
+      name_run_b pi true (g_name a) (getz (w1 ++ [61]) 0) &&
       ((q =? 34) || (q =? 39)) && forallb (fun c => negb (c =? q) && negb (c =? 0)) x
   end.
 
-Fixpoint gattrs_okb (l : list gattr) (tail : list Z) : bool :=
+Fixpoint gattrs_okb (pi : bool) (l : list gattr) (tail : list Z) : bool :=
   match l with
   | [] => true
-  | a :: t => gattr_okb a (render_gattrs t ++ tail) && gattrs_okb t tail
+  | a :: t => gattr_okb pi a (render_gattrs t ++ tail) && gattrs_okb pi t tail
   end.
 
 Definition closer_tyb (k : ttype) : bool :=
@@ -114,7 +114,8 @@ Definition closer_tyb (k : ttype) : bool :=
 
 Definition itag_okb (pi : bool) (n : list Z) (gs : list gattr) (ws : list Z) (k : ttype) : bool :=
   is_name_b false n && (pi || negb (getz n 0 =? 33)) && all_ws_b ws && closer_tyb k &&
-  gattrs_okb gs (ws ++ closer_bytes k) && name_end_b false (render_gattrs gs ++ ws ++ closer_bytes k).
+  (negb pi || match k with TStartTagClosePI => true | _ => false end) &&
+  gattrs_okb pi gs (ws ++ closer_bytes k) && name_end_b pi false (render_gattrs gs ++ ws ++ closer_bytes k).
 
 
 Definition item_okb (it : item) : bool :=
@@ -190,12 +191,12 @@ Proof.
   apply forallb_Forall. apply dinner_okb_sound.
 Qed.
 
-Lemma name_run_b_sound eq n nxt : name_run_b eq n nxt = true -> name_run eq n nxt.
+Lemma name_run_b_sound pi eq n nxt : name_run_b pi eq n nxt = true -> name_run pi eq n nxt.
 Proof.
   induction n as [|c t IH]; cbn [name_run_b name_run]; [auto|]. intros H. b2p. split; [assumption|apply IH; assumption].
 Qed.
 
-Lemma name_end_b_sound eq l : name_end_b eq l = true -> name_end eq l.
+Lemma name_end_b_sound pi eq l : name_end_b pi eq l = true -> name_end pi eq l.
 Proof.
   destruct l as [|c t]; [discriminate|]. cbn [name_end_b]. intros H. b2p. exists c, t.
   split; [reflexivity|]. split; [assumption|]. intros Hc Ht. subst t.
@@ -216,7 +217,7 @@ Proof. destruct l; [discriminate|discriminate]. Qed.
 Lemma nil_imp name w1 : negb (nil_b name) || nil_b w1 = true -> name = [] -> w1 = [].
 Proof. intros H ->. cbn in H. destruct w1; [reflexivity|discriminate]. Qed.
 
-Lemma gattr_okb_sound a rest : gattr_okb a rest = true -> gattr_ok a rest.
+Lemma gattr_okb_sound pi a rest : gattr_okb pi a rest = true -> gattr_ok pi a rest.
 Proof.
   unfold gattr_okb, gattr_ok. intros H. apply andb_true_iff in H. destruct H as (Hl & Hv).
   split; [apply all_ws_b_sound; exact Hl|]. destruct (g_val a) as [|w1 w2 x|w1 w2 q x].
@@ -234,7 +235,7 @@ Proof.
     split; [lia|]. match goal with H : forallb _ x = true |- _ => revert H end. apply forallb_Forall. intros c Hc. lia.
 Qed.
 
-Lemma gattrs_okb_sound l tail : gattrs_okb l tail = true -> gattrs_ok l tail.
+Lemma gattrs_okb_sound pi l tail : gattrs_okb pi l tail = true -> gattrs_ok pi l tail.
 Proof.
   induction l as [|a t IH]; cbn [gattrs_okb gattrs_ok]; [auto|]. intros H. b2p.
   split; [apply gattr_okb_sound; assumption|apply IH; assumption].
@@ -247,6 +248,8 @@ Proof.
   { intros ->. cbn [orb] in *. lia. }
   split; [apply all_ws_b_sound; assumption|]. split.
   { unfold is_closer_ty. destruct k; try discriminate; auto. }
+  split.
+  { intros ->. cbn [negb orb] in *. destruct k; try discriminate; reflexivity. }
   split; [apply gattrs_okb_sound; assumption|apply name_end_b_sound; assumption].
 Qed.
 
@@ -330,32 +333,31 @@ Proof.
   split; [reflexivity|]. split; [reflexivity|]. intros void. destruct void; split; reflexivity.
 Qed.
 
-(* <?p a>b?><a/> as the lexer sees it: a PI opener with the piece " a" closed by '>', then text *)
+(* <?p a>b?><a/> as the lexer sees it: the PI opener <?p , the piece " a>b" (a name only: '>' does not end a
+   processing instruction), the closer ?> ; then the element *)
 Definition ex_pi_gt_items : list item :=
-  [ ITag true [112] [mkG [32] [97] VNone] [] TStartTagClose; IText [98; 63; 62]; IStart [97] [] [] true ].
+  [ ITag true [112] [mkG [32] [97; 62; 98] VNone] [] TStartTagClosePI; IStart [97] [] [] true ].
 
 Example ex_pi_gt_items_ok : doc_ok ex_pi_gt_items.
-Proof.
-  split.
-  - unfold ex_pi_gt_items. repeat apply Forall_cons; try apply Forall_nil; cbn [item_ok].
-    + split; [split; [discriminate|repeat constructor]|]. split; [discriminate|]. split; [constructor|].
-      split; [left; reflexivity|]. split.
-      * cbn [gattrs_ok render_gattrs map concat app closer_bytes]. split; [|exact I].
-        split; [repeat constructor|]. cbn [g_val g_name]. split; [discriminate|]. split; [split; [reflexivity|exact I]|].
-        split.
-        -- exists 62, []. split; [reflexivity|]. split; [reflexivity|]. intros [H|H]; discriminate.
-        -- exists [], 62, []. split; [reflexivity|]. split; [constructor|]. split; [reflexivity|discriminate].
-      * exists 32, [97; 62]. split; [reflexivity|]. split; [reflexivity|]. intros [H|H]; discriminate.
-    + split; [discriminate|repeat constructor; discriminate].
-    + split; [split; [discriminate|repeat constructor]|]. split; [discriminate|]. split; constructor.
-  - cbn. intuition discriminate.
-Qed.
+Proof. apply doc_okb_sound. vm_compute. reflexivity. Qed.
+
+(* <?php if ($a > $b) echo "x"; ?> : free-form content is returned as one Attribute token per
+   whitespace-separated piece *)
+Definition ex_php_items : list item :=
+  [ ITag true [112; 104; 112]
+      [ mkG [32] [105; 102] VNone; mkG [32] [40; 36; 97] VNone; mkG [32] [62] VNone; mkG [32] [36; 98; 41] VNone;
+        mkG [32] [101; 99; 104; 111] VNone; mkG [32] [34; 120; 34; 59] VNone ] [32] TStartTagClosePI ].
+
+Example ex_php_items_ok : doc_ok ex_php_items.
+Proof. apply doc_okb_sound. vm_compute. reflexivity. Qed.
 
 Theorem xml_pi_content_exact_proof :
   render_doc ex_pi_gt_items = ex_pi_gt /\
   lexes (xml_init ex_pi_gt) (expect_doc ex_pi_gt_items) 1 /\
-  map (fun t => fst (fst (fst t))) (expect_doc ex_pi_gt_items) =
-    [TStartTagPI; TAttribute; TStartTagClose; TText; TStartTag; TStartTagCloseVoid].
+  expect_doc ex_pi_gt_items =
+    [ (TStartTagPI, Some [60; 63; 112], Some [112], None); (TAttribute, Some [32; 97; 62; 98], Some [97; 62; 98], None);
+      (TStartTagClosePI, Some [63; 62], None, None);
+      (TStartTag, Some [60; 97], Some [97], None); (TStartTagCloseVoid, Some [47; 62], None, None) ].
 Proof.
   assert (E : render_doc ex_pi_gt_items = ex_pi_gt) by (vm_compute; reflexivity).
   split; [exact E|]. split; [|vm_compute; reflexivity]. rewrite <- E.
